@@ -22,7 +22,7 @@ type C05Case struct {
 
 var _ = Register("C05", func() interface{} { return new(C05Case) }, func(c interface{}) string { return c05Oracle(c.(*C05Case)) })
 
-var c05Decl = &GenCfg{Depth: 1, Fanout: 2, SubOpt: 100, CmdPct: 50, Aliases: true, MaxOpts: 3, MaxGroups: 2, NestGroups: 2, Kinds: append(append([]Kind{}, AllArgKinds...), KBool, KBoolSlice, KBoolPtr),
+var c05Decl = &GenCfg{Depth: 1, Fanout: 2, SubOpt: 100, CmdPct: 50, Aliases: true, MaxOpts: 3, MaxGroups: 2, NestGroups: 4, Kinds: append(append([]Kind{}, AllArgKinds...), KBool, KBoolSlice, KBoolPtr),
 	Ns: true, EnvNs: true, Req: 0, Choices: true, Defaults: true, Initial: true, Bases: true, NonASCII: true, NsDelims: []string{"-"}, FieldPool: true}
 
 func genC05(t *rapid.T) *C05Case {
